@@ -483,16 +483,18 @@ func (x *executor) UserSessions(userID interface{}) ([]string, error) {
 	if fail {
 		return nil, errInjected
 	}
+	// a stale index: IDs that carried the user when they were deleted come
+	// first, then the live ones
 	var ids []string
+	for _, g := range x.st.Graves {
+		if g.User != nil && *g.User == u {
+			ids = append(ids, g.ID)
+		}
+	}
 	for _, e := range x.st.Store {
 		rec, err := x.storedRec(e.ID)
 		if err == nil && rec.User != nil && rec.User[0] == u {
 			ids = append(ids, e.ID)
-		}
-	}
-	for _, g := range x.st.Graves {
-		if g.User != nil && *g.User == u {
-			ids = append(ids, g.ID)
 		}
 	}
 	return ids, nil
